@@ -1009,12 +1009,17 @@ impl ChainMonitor {
 
     // push compact proof transactions through, simulating a streamed block
     fn push_transactions(&self, block_hash: &BlockHash, txs: &[Transaction]) -> BlockDecodeState {
-        let mut state = self.get_state();
+        // The state lock must not be held while the listener runs, because the
+        // commitment point provider locks the channel, and channel operations
+        // lock the monitor state while holding the channel lock.
+        let mut decode_state = {
+            let mut state = self.get_state();
 
-        // we are synced if we see a compact proof
-        state.saw_block = true;
+            // we are synced if we see a compact proof
+            state.saw_block = true;
 
-        let mut decode_state = BlockDecodeState::new_with_block_hash(&*state, block_hash);
+            BlockDecodeState::new_with_block_hash(&*state, block_hash)
+        };
 
         let mut listener = PushListener {
             commitment_point_provider: &*self.commitment_point_provider,
@@ -1099,12 +1104,18 @@ impl ChainListener for ChainMonitor {
     where
         F: FnOnce(&mut dyn push_decoder::Listener),
     {
-        let mut state = self.get_state();
-        let saw_block = state.saw_block;
+        // The state lock must not be held while the listener runs, because the
+        // commitment point provider locks the channel, and channel operations
+        // lock the monitor state while holding the channel lock.
+        let (saw_block, mut decode_state_lock) = {
+            let state = self.get_state();
+            let mut decode_state_lock = self.decode_state.lock().expect("lock");
+            decode_state_lock.get_or_insert_with(|| BlockDecodeState::new(&*state));
+            (state.saw_block, decode_state_lock)
+        };
 
-        let mut decode_state_lock = self.decode_state.lock().expect("lock");
-
-        let decode_state = decode_state_lock.get_or_insert_with(|| BlockDecodeState::new(&*state));
+        // safe because it was just inserted if missing
+        let decode_state = decode_state_lock.as_mut().unwrap();
 
         let mut listener = PushListener {
             commitment_point_provider: &*self.commitment_point_provider,
@@ -1112,9 +1123,11 @@ impl ChainListener for ChainMonitor {
             saw_block,
         };
         f(&mut listener);
+        let saw_block = listener.saw_block;
+        drop(decode_state_lock);
 
         // update the saw_block flag, in case the listener saw a block start event
-        state.saw_block = listener.saw_block;
+        self.get_state().saw_block = saw_block;
     }
 
     fn on_streamed_block_abort(&self) {
